@@ -1,6 +1,8 @@
 import JominiModel.Model.Writer
 import JominiModel.Spec.Writer
 import JominiModel.Proofs.Writer
+import JominiModel.Spec.WriterFlat
+import JominiModel.Proofs.WriterFlat
 /-
 C15 — Well-formed sequences of writer calls parse back to exactly what was written.
 Only property theorems live here; helper lemmas are in `Proofs/Writer.lean`, reference
@@ -239,6 +241,46 @@ theorem C15_lexemes_partial (kvs : List (Bytes × Bytes)) (c : UInt8) (f : Nat) 
 example : (run (flatCalls [([104, 101, 108, 108, 111], [119, 111, 114, 108, 100]), ([102, 111, 111], [98, 97, 114])])
     (State.init 32 2)).1.out =
     [104, 101, 108, 108, 111, 61, 119, 111, 114, 108, 100, 10, 102, 111, 111, 61, 98, 97, 114] := by
+  decide +kernel
+
+/-- `C15_lexemes` for flat documents with everything a field can carry: root-level fields whose
+key and value are `write_unquoted` or `write_quoted` calls (arbitrary payload bytes) with the `=`
+implicit, or any explicit `write_operator`.  The bytes written are exactly one
+`key<sep>value` line per field (`=` glued, every other operator with one space on both sides),
+lines separated by one `\n`, quoted payloads escaped between quotes, for every indent
+configuration. -/
+theorem C15_lexemes_flat (fs : List FField) (c : UInt8) (f : Nat) :
+    (run (fcalls fs) (State.init c f)).1.out = flatOut (fs.map FField.item) true := by
+  have := run_fcalls fs (State.init c f) rfl rfl rfl
+  simpa [State.init] using this
+
+/-- First end-to-end round trip (writer model → tape parser model of the text-tape slice): for
+every flat call list as above whose unquoted payloads are scalars of the text format
+(`Scal.Valid`; quoted payloads are arbitrary bytes), `TextTape.parse` of the written bytes
+succeeds and yields exactly the described tokens — keys, operators (none for `=`), values, with
+their quotedness, quoted payloads as `escape payload` — in order, nothing else.  (`hb`: the text
+does not begin with the three BOM bytes, i.e. the first key is not an unquoted scalar starting
+with EF BB BF, which the parser would strip.) -/
+theorem C15_parse_back_flat (fs : List FField) (c : UInt8) (f : Nat)
+    (hv : ∀ x ∈ fs, x.key.Valid ∧ x.val.Valid)
+    (hb : TextTape.hasBom (run (fcalls fs) (State.init c f)).1.out = false) :
+    ∃ T, TextTape.parse (run (fcalls fs) (State.init c f)).1.out = .ok T false ∧
+      T.map TextTape.Tok.erase = TextTape.contentFlat (fs.map fun x => x.item.content) := by
+  rw [C15_lexemes_flat] at hb ⊢
+  have hv' : ∀ it ∈ fs.map FField.item, it.key.Valid ∧ it.val.Valid := by
+    intro it hit
+    obtain ⟨x, hx, rfl⟩ := List.mem_map.1 hit
+    exact ⟨scall_valid _ (hv x hx).1, scall_valid _ (hv x hx).2⟩
+  obtain ⟨T, hp, he⟩ := parse_flatOut (fs.map FField.item) hv' hb
+  exact ⟨T, hp, by rw [he, List.map_map]; rfl⟩
+
+/-- `a="x\"y"` then `b < c`: payload with a quote, explicit operator; hypotheses hold and the
+parse-back is computed by the two models -/
+example :
+    TextTape.parse (run (fcalls [⟨.unq [97], none, .quo [120, 34, 121]⟩, ⟨.unq [98], some .lt, .unq [99]⟩])
+      (State.init 32 2)).1.out =
+    .ok [.unquoted ⟨14, [97]⟩, .quoted ⟨11, [120, 92, 34, 121]⟩, .unquoted ⟨5, [98]⟩, .operator .lt,
+         .unquoted ⟨1, [99]⟩] false := by
   decide +kernel
 
 /-
